@@ -64,7 +64,14 @@ def run(ctx):
     for name, lang, flags in (("c_any", "c", []), ("c_little", "c", ["--target-endianness", "little"]), ("c_big", "c", ["--target-endianness", "big"]),
                               ("cpp14", "cpp", []), ("cpp17", "cpp", ["--language-standard", "c++17"]),
                               # the library's own assertions armed (a failing one aborts the driver): results may not depend on the option
-                              ("c_asserts", "c", ["--enable-serialization-asserts"]), ("cpp14_asserts", "cpp", ["--enable-serialization-asserts"])):
+                              ("c_asserts", "c", ["--enable-serialization-asserts"]), ("cpp14_asserts", "cpp", ["--enable-serialization-asserts"]),
+                              # the other supported standards, and the template whitespace options of the command line (the support
+                              # templates are rendered under them like any other): the primitives must come out the same
+                              ("cpp20", "cpp", ["--language-standard", "c++20"]), ("cpp17pmr", "cpp", ["--language-standard", "c++17-pmr"]),
+                              ("c_little_trim", "c", ["--target-endianness", "little", "--trim-blocks"]),
+                              ("c_any_trim_lstrip", "c", ["--trim-blocks", "--lstrip-blocks"]),
+                              ("c_big_lstrip", "c", ["--target-endianness", "big", "--lstrip-blocks"]),
+                              ("cpp20_trim_lstrip", "cpp", ["--language-standard", "c++20", "--trim-blocks", "--lstrip-blocks"])):
         out, err = gen_support(ctx, lang, flags, name)
         if out is None:
             ctx.refute(None, "support generation failed for %s" % name, dict(stderr=err))
@@ -74,7 +81,7 @@ def run(ctx):
         for kind in kinds:
             binary = os.path.join(ctx.scratch, "drv_%s_%s" % (name, kind))
             okb, berr = build.compile_unit(os.path.join(HERE, "driver.cpp" if is_cpp else "driver.c"), binary, [out, HERE], kind, cxx=is_cpp,
-                                           std=("c++17" if "17" in name else "c++14") if is_cpp else "c11",
+                                           std=("c++20" if "20" in name else "c++17" if "17" in name else "c++14") if is_cpp else "c11",
                                            extra=["-include", os.path.join(HERE, "assert_hook.h")] if "asserts" in name else ())
             if not okb:
                 ctx.refute(None, "driver does not compile against the generated %s support header" % name, dict(stderr=berr[-1500:]))
@@ -117,8 +124,9 @@ def run(ctx):
     else:
         env = common.child_env()
         env["PYTHONPATH"] = os.pathsep.join([out, os.path.join(common.VERIF, ".deps")])
-        procs = [subprocess.Popen([common.PY, os.path.join(HERE, "pydriver.py"), str(ctx.seed * 100 + i), str(thorough)], stdout=subprocess.PIPE, stderr=subprocess.PIPE, text=True, env=env)
-                 for i in range(ctx.pick(4, 16))]
+        nproc = ctx.pick(4, 16)
+        procs = [subprocess.Popen([common.PY, os.path.join(HERE, "pydriver.py"), str(ctx.seed * 100 + i), str(thorough), str(i), str(nproc)], stdout=subprocess.PIPE, stderr=subprocess.PIPE, text=True, env=env)
+                 for i in range(nproc)]
         for i, p in enumerate(procs):
             try:
                 o, e = p.communicate(timeout=3300)
